@@ -150,6 +150,12 @@ func (db *DB) Merge() error {
 		}
 	}
 
+	// 重写时被跳过的记录已被 merge 期间写入的更新记录取代, 这些更新记录位于未参与 merge 的数据文件中
+	// 须先于完成标识持久化, 否则掉电后 merge 结果生效而更新记录丢失, 已持久化的旧值随之消失
+	if err := db.Sync(); err != nil {
+		return err
+	}
+
 	// 在 merge 临时目录创建并打开 merge 完成标识文件
 	mergeFinishedFile, err := datafile.OpenFile(mergePath, 0,
 		datafile.MergeFinishedFileSuffix, db.options.FileIOType)
